@@ -24,10 +24,13 @@ type c10Emit struct {
 	I     int    `json:"i"`
 	Size  int    `json:"size,omitempty"`  // extra payload bytes (concretisation of the size class)
 	Typed bool   `json:"typed,omitempty"` // _meta passed as mcp.Meta instead of a plain map
+	// MetaOnly (custom + meta): the params consist of _meta alone, there is no ordinary field
+	MetaOnly bool `json:"meta_only,omitempty"`
 }
 
 type c10Scenario struct {
 	ID      string    `json:"id"`
+	Srv     string    `json:"srv,omitempty"` // stateful (default) | stateless | nosession
 	Mode    string    `json:"mode"`
 	Reg     []string  `json:"reg"`
 	Emitted []c10Emit `json:"emitted"`
@@ -96,6 +99,8 @@ func c10Send(ctx context.Context, nonce string, e c10Emit) error {
 		return sender.SendCustomNotification(c10Method["log"], map[string]interface{}{"level": "info", "data": msg, "_meta": meta})
 	case e.Kind == "custom" && !e.Meta:
 		return sender.SendCustomNotification(c10Method["custom"], map[string]interface{}{"seq": float64(e.I), "text": msg, "nested": map[string]interface{}{"a": []interface{}{1.0, "x", nil}}})
+	case e.MetaOnly:
+		return sender.SendCustomNotification(c10Method["custom"], map[string]interface{}{"_meta": meta})
 	default:
 		return sender.SendNotification(mcp.NewNotification(c10Method["custom"], map[string]interface{}{"seq": float64(e.I), "text": msg, "_meta": meta}))
 	}
@@ -117,6 +122,21 @@ func c10Check(n *mcp.JSONRPCNotification) (nonce string, i int, meta bool, intac
 		}
 	case "custom":
 		msg, _ = af["text"].(string)
+		if _, has := af["text"]; !has && len(af) == 0 {
+			// params of _meta alone: the emission is identified by its _meta
+			if tok, ok := n.Params.Meta["tok"].(string); ok {
+				i := 0
+				parts := strings.Split(tok, "-")
+				if len(parts) >= 3 && parts[0] == "m" {
+					fmt.Sscan(parts[len(parts)-1], &i)
+					want := map[string]interface{}{"tok": tok, "n": float64(i)}
+					if reflect.DeepEqual(norm(n.Params.Meta), norm(want)) {
+						return strings.Join(parts[1:len(parts)-1], "-"), i, true, true, ""
+					}
+					return strings.Join(parts[1:len(parts)-1], "-"), i, true, false, fmt.Sprintf("_meta %v != %v", n.Params.Meta, want)
+				}
+			}
+		}
 	}
 	full := msg
 	if k := strings.IndexByte(msg, '|'); k >= 0 {
@@ -178,7 +198,14 @@ func c10RunGroup(group []c10Scenario) []c10Result {
 			*t = append(*t, m)
 		}
 	}
-	srv := mcp.NewServer("verif", "1.0", mcp.WithServerPath("/mcp"), mcp.WithServerLogger(silentLogger{}), mcp.WithPostSSEEnabled(mode == "sse"))
+	sopts := []mcp.ServerOption{mcp.WithServerPath("/mcp"), mcp.WithServerLogger(silentLogger{}), mcp.WithPostSSEEnabled(mode == "sse")}
+	switch group[0].Srv {
+	case "stateless":
+		sopts = append(sopts, mcp.WithStatelessMode(true))
+	case "nosession":
+		sopts = append(sopts, mcp.WithoutSession())
+	}
+	srv := mcp.NewServer("verif", "1.0", sopts...)
 	srv.RegisterTool(mcp.NewTool("emit", mcp.WithString("nonce")), func(ctx context.Context, req *mcp.CallToolRequest) (*mcp.CallToolResult, error) {
 		nonce, _ := req.Params.Arguments["nonce"].(string)
 		var script []c10Emit
